@@ -931,6 +931,44 @@ type filterLoop struct {
 	Body   *ast.BlockStmt
 	ElemIs func(e ast.Expr) bool
 	IdxIs  func(e ast.Expr) bool // e is the position (byte index for strings) of the current element
+	// Implied: the loop visits, in ascending order, exactly the positions holding this constant (a search-and-hop
+	// scan: i := IndexByte(src[off:], C); if i < 0 { break }; …; off += i+1); Action is the body between the
+	// break guard and the hop
+	Implied *int64
+	Action  []ast.Stmt
+	pos     *Lin // hop scan: the position as a linear form
+}
+
+func (fl *filterLoop) posEquals(c *Ctx, l *Lin) bool { return fl.pos != nil && l.equal(fl.pos) }
+
+// linOfExpr renders an integer expression over identifiers as a linear form (symbols are the objects).
+func (c *Ctx) linOfExpr(e ast.Expr) (*Lin, bool) {
+	e = c.stripConv(e)
+	if k, ok := c.intConst(e); ok {
+		return linConst(k), true
+	}
+	switch e := e.(type) {
+	case *ast.Ident:
+		if obj := c.objOf(e); obj != nil {
+			return linSym(fmt.Sprintf("%s@%d", obj.Name(), obj.Pos())), true
+		}
+	case *ast.BinaryExpr:
+		if e.Op == token.ADD || e.Op == token.SUB {
+			a, ok1 := c.linOfExpr(e.X)
+			b, ok2 := c.linOfExpr(e.Y)
+			if ok1 && ok2 {
+				if e.Op == token.ADD {
+					return a.add(b), true
+				}
+				return a.sub(b), true
+			}
+		}
+	}
+	return nil, false
+}
+
+func (c *Ctx) symOfObj(obj types.Object) *Lin {
+	return linSym(fmt.Sprintf("%s@%d", obj.Name(), obj.Pos()))
 }
 
 func (c *Ctx) asFilterLoop(s ast.Stmt, isSource func(ast.Expr) bool) *filterLoop {
@@ -967,6 +1005,9 @@ func (c *Ctx) asFilterLoop(s ast.Stmt, isSource func(ast.Expr) bool) *filterLoop
 			return nil
 		}
 		iv := c.objOf(init.Lhs[0].(*ast.Ident))
+		if s.Post == nil {
+			return c.asHopScan(s, iv, isSource)
+		}
 		post, ok := s.Post.(*ast.IncDecStmt)
 		if !ok || post.Tok != token.INC || !c.isObj(post.X, iv) {
 			return nil
@@ -1044,4 +1085,94 @@ func ruleBindEmission(c *Ctx, r *Report, rule string) {
 	}
 	// nobody but the emission primitives writes code bytes (so no statement can erase or rewrite an earlier BIND)
 	c.ownership(r, rule, "Prog", "code", progOwners["code"], true)
+}
+
+
+// asHopScan: for off := 0; [off < len(src)]; { i := strings.IndexByte(src[off:], C); if i < 0 { break }; <action>; off += i + 1 }
+func (c *Ctx) asHopScan(s *ast.ForStmt, off types.Object, isSource func(ast.Expr) bool) *filterLoop {
+	if s.Cond != nil {
+		cond, ok := stripParens(s.Cond).(*ast.BinaryExpr)
+		if !ok || cond.Op != token.LSS || !c.isObj(cond.X, off) {
+			return nil
+		}
+		call, ok := stripParens(cond.Y).(*ast.CallExpr)
+		if !ok || c.calleeName(call) != "len" || len(call.Args) != 1 || !isSource(call.Args[0]) {
+			return nil
+		}
+	}
+	list := s.Body.List
+	if len(list) < 3 {
+		return nil
+	}
+	// i := strings.IndexByte(src[off:], C)
+	def, ok := list[0].(*ast.AssignStmt)
+	if !ok || len(def.Lhs) != 1 || len(def.Rhs) != 1 {
+		return nil
+	}
+	call, ok := def.Rhs[0].(*ast.CallExpr)
+	if !ok || len(call.Args) != 2 {
+		return nil
+	}
+	switch c.calleeName(call) {
+	case "strings.IndexByte", "strings.IndexRune", "bytes.IndexByte":
+	default:
+		return nil
+	}
+	se, ok := stripParens(call.Args[0]).(*ast.SliceExpr)
+	if !ok || !isSource(se.X) || se.High != nil || se.Low == nil || !c.isObj(se.Low, off) {
+		return nil
+	}
+	k, isK := c.intConst(call.Args[1])
+	if !isK || k < 0 || k >= 0x80 {
+		return nil // a single byte below 0x80 is found at character boundaries only
+	}
+	iObj := c.objOf(def.Lhs[0])
+	// if i < 0 { break }
+	guard, ok := list[1].(*ast.IfStmt)
+	if !ok || guard.Else != nil || guard.Init != nil || len(guard.Body.List) != 1 {
+		return nil
+	}
+	if br, isBr := guard.Body.List[0].(*ast.BranchStmt); !isBr || br.Tok != token.BREAK || br.Label != nil {
+		if _, isRet := guard.Body.List[0].(*ast.ReturnStmt); !isRet {
+			return nil
+		}
+	}
+	b, isB := c.boundOf(condAtom{E: stripParens(guard.Cond), Pos: true})
+	if !isB || !c.isObj(b.X, iObj) || b.Hi == nil || *b.Hi != -1 || b.Lo != nil {
+		return nil
+	}
+	// off += i + 1 (or off = off + i + 1) as the last statement
+	hop, ok := list[len(list)-1].(*ast.AssignStmt)
+	if !ok || len(hop.Lhs) != 1 || len(hop.Rhs) != 1 || !c.isObj(hop.Lhs[0], off) {
+		return nil
+	}
+	step, okL := c.linOfExpr(hop.Rhs[0])
+	if !okL {
+		return nil
+	}
+	want := c.symOfObj(iObj).add(linConst(1))
+	switch hop.Tok {
+	case token.ADD_ASSIGN:
+	case token.ASSIGN:
+		want = want.add(c.symOfObj(off))
+	default:
+		return nil
+	}
+	if !step.equal(want) {
+		return nil
+	}
+	action := list[2 : len(list)-1]
+	for _, a := range action {
+		if c.assignedIn(a, off) || c.assignedIn(a, iObj) {
+			return nil
+		}
+	}
+	pos := c.symOfObj(off).add(c.symOfObj(iObj))
+	return &filterLoop{Stmt: s, Body: s.Body, Implied: &k, Action: action, pos: pos,
+		IdxIs: func(e ast.Expr) bool {
+			l, ok := c.linOfExpr(e)
+			return ok && l.equal(pos)
+		},
+		ElemIs: func(e ast.Expr) bool { return false },
+	}
 }
